@@ -257,8 +257,7 @@ def r_cks_reader(model, rep, rule_id="R-CKS-DEFASSIGN", format_only=False):
            msg="" if value in d_alts and not others else "a bare digest must be stored unchanged")
     # which branch: ':' in value decides
     binds = [ev for ev in cx.events if ev.kind == "bind" and ev.value == ("idx", sp, 0)]
-    ok = len(binds) == 1 and any(g == (("cmp", ("not in",), (("const", ":"), value)), False) or g == (("cmp", ("in",), (("const", ":"), value)), True)
-                                 for g in binds[0].guards)
+    ok = len(binds) == 1 and any(facts.canon_guard_pair(g) == (("cmp", ("in",), (("const", ":"), value)), True) for g in binds[0].guards)
     rep.ob(rule_id, "Checksums.deserialize:split-iff-colon", ok, site=cx.site(f.node),
            msg="" if ok else "the value must be split exactly when it contains ':'")
     # unrecognised bare digests are rejected
